@@ -137,6 +137,7 @@ func c14bBuild(t testing.TB, r *vreport.Report, sc c14bScenario) vsched.Scenario
 							attemptStart = i
 						}
 					}
+					_ = lastAdd
 					if lastDel >= 0 && delThread >= 0 && delThread != commitThread {
 						if lastDel > attemptStart {
 							// the other writer's sweep ran on a decision that was stale by then
